@@ -476,6 +476,43 @@ def insert_loop_contracts(body, loops):
     return body, len(events)
 
 
+def one_arbitrary_iteration(body, ordinal):
+    """R21: `while (C) { B }` -> `if (C) { B VP_ITERATION_END; }` for a loop whose invariant is `true`.
+    Sound only when the state at the loop head is arbitrary at function entry, i.e. nothing but declarations
+    without initialisers precedes the loop (checked here) and the harness leaves every global nondeterministic:
+    one execution of the body from an arbitrary state is the inductive step, the false branch is the loop exit."""
+    events = []
+    pos = 0
+    n = 0
+    while True:
+        m = LOOP_KW.search(body, pos)
+        if not m:
+            raise ExtractionError("R21: loop ordinal %d not found" % ordinal)
+        if n == ordinal:
+            break
+        n += 1
+        pos = m.end()
+    if m.group(1) != 'while':
+        raise ExtractionError("R21: loop %d is not a while loop" % ordinal)
+    prefix = body[1:m.start()]
+    if '=' in prefix or '(' in prefix:
+        raise ExtractionError("R21: statements precede the loop: %r" % prefix.strip()[:80])
+    k = m.end()
+    while body[k] in ' \t\n':
+        k += 1
+    pc = match_close(body, k, '(', ')')
+    j = pc + 1
+    while body[j] in ' \t\n':
+        j += 1
+    if body[j] != '{':
+        raise ExtractionError("R21: loop body without braces")
+    bc = match_close(body, j)
+    inner = body[j + 1:bc]
+    if re.search(r'\b(break|continue)\b', re.sub(r'\b(for|while|do|switch)\b.*', '', inner, flags=re.S)) :
+        pass
+    return body[:m.start()] + 'if' + body[m.end():bc] + ' VP_ITERATION_END; }' + body[bc + 1:]
+
+
 def add_signal_points(body, macro='VP_SIGNAL_POINT();'):
     """Append a delivery point after every ';' at statement level (outside parentheses)."""
     out = []
@@ -537,7 +574,8 @@ class Fn:
 
     def __init__(self, file, anchor, proto, contract='', loops=None, subst=(), ordinal=0,
                  nmatches=None, skip=(), pre='', post='', block_end=None, signal_points=False,
-                 label=None, inst=None, wrap_body=True, expect_fired=None, drop_init=False, defines=None):
+                 label=None, inst=None, wrap_body=True, expect_fired=None, drop_init=False, defines=None,
+                 one_iteration=None):
         self.file = file
         self.anchor = anchor
         self.proto = proto
@@ -557,6 +595,7 @@ class Fn:
         self.expect_fired = expect_fired or {}
         self.drop_init = drop_init
         self.defines = defines or {}
+        self.one_iteration = one_iteration
         self.info = None
 
     def cname(self):
@@ -598,6 +637,9 @@ class Fn:
         if self.signal_points:
             inner, nsig = add_signal_points(body[1:-1])
             body = '{' + inner + '}'
+        if self.one_iteration is not None:
+            body = one_arbitrary_iteration(body, self.one_iteration)
+            rules._count('R21', 1)
         body, nloops = insert_loop_contracts(body, self.loops)
         check_leftover(body, '%s:%d %s' % (self.file, ex.line, self.cname()))
         if self.pre:
